@@ -45,6 +45,9 @@ type c11Cfg struct {
 	// Pair (pools with Length 0): every goroutine holds two buffers of the pool at a time, fills the second,
 	// appends it to the first (which has exactly the room) and puts both back: the two stay two storages
 	Pair bool `json:"pair,omitempty"`
+	// Cross (ByValue): a buffer obtained through one copy of the allocator value is put back through the
+	// copy of the next goroutine (every copy is a handle to the same pool)
+	Cross bool `json:"cross,omitempty"`
 }
 
 type c11Case struct {
@@ -228,6 +231,10 @@ func (h *c11H) Run(id int) {
 		if cfg.Shrink && cfg.L > 0 {
 			b = b.Slice(0, cfg.L-1)
 		}
+		if cfg.Cross {
+			h.pools[(id+1)%cfg.G].Put(b)
+			continue
+		}
 		p.Put(b)
 	}
 	h.progress(id, cfg.M, len(h.fails[id]))
@@ -345,6 +352,8 @@ func c11Configs(tier string, race bool) []c11Cfg {
 	for _, bv := range []bool{false, true} {
 		r = append(r, c11Cfg{T: "float64", C: 2, L: 1, K: 2, G: 2, M: 2, ByValue: bv, Bound: -1, Shrink: true}, c11Cfg{T: "int16", C: 1, L: 3, K: 4, G: 2, M: 2, ByValue: bv, Bound: 2, Shrink: true})
 	}
+	// buffers put back through another copy of the allocator value than the one they came from
+	r = append(r, c11Cfg{T: "int16", C: 2, L: 1, K: 2, G: 2, M: 2, ByValue: true, Bound: 1, Cross: true}, c11Cfg{T: "int8", C: 1, L: 0, K: 2, G: 3, M: 1, ByValue: true, Warm: true, Bound: 1, Cross: true})
 	// a pool whose allocator has no channels (and a capacity all the same)
 	r = append(r, c11Cfg{T: "int8", C: 0, L: 0, K: 3, G: 2, M: 1, Bound: 1})
 	// two buffers of the pool held at a time, one appended to the other
